@@ -5,7 +5,9 @@ package ast
 import (
 	"bytes"
 	"fmt"
+	"sort"
 	"strconv"
+	"strings"
 
 	"github.com/robfig/soy/data"
 )
@@ -676,7 +678,11 @@ type FloatNode struct {
 }
 
 func (n *FloatNode) String() string {
-	return strconv.FormatFloat(n.Value, 'g', -1, 64)
+	var expr = strconv.FormatFloat(n.Value, 'g', -1, 64)
+	if !strings.ContainsAny(expr, ".eIN") {
+		expr += ".0" // keep it a float literal: "2" would parse back as an integer
+	}
+	return expr
 }
 
 type StringNode struct {
@@ -749,16 +755,25 @@ func (n *MapLiteralNode) String() string {
 	if len(n.Items) == 0 {
 		return "[:]"
 	}
+	var keys = make([]string, 0, len(n.Items))
+	for k := range n.Items {
+		keys = append(keys, k)
+	}
+	sort.Strings(keys)
 	var expr = "["
-	var first = true
-	for k, v := range n.Items {
-		if !first {
+	for i, k := range keys {
+		if i > 0 {
 			expr += ", "
 		}
-		expr += fmt.Sprintf("'%s': %s", k, v.String())
-		first = false
+		expr += quoteKey(k) + ": " + n.Items[k].String()
 	}
 	return expr + "]"
+}
+
+// quoteKey returns the given map key as a Soy string literal.
+func quoteKey(s string) string {
+	var r = strings.NewReplacer(`\`, `\\`, `'`, `\'`, "\n", `\n`, "\r", `\r`, "\t", `\t`, "\b", `\b`, "\f", `\f`)
+	return "'" + r.Replace(s) + "'"
 }
 
 func (n *MapLiteralNode) Children() []Node {
@@ -843,7 +858,7 @@ type NotNode struct {
 }
 
 func (n *NotNode) String() string {
-	return "not " + n.Arg.String()
+	return "not " + operandString(n.Arg, precedence(n), false)
 }
 
 func (n *NotNode) Children() []Node {
@@ -856,7 +871,11 @@ type NegateNode struct {
 }
 
 func (n *NegateNode) String() string {
-	return "-" + n.Arg.String()
+	switch n.Arg.(type) {
+	case *IntNode, *FloatNode:
+		return "-(" + n.Arg.String() + ")" // "-1" would parse back as a literal
+	}
+	return "-" + operandString(n.Arg, precedence(n), false)
 }
 
 func (n *NegateNode) Children() []Node {
@@ -870,7 +889,69 @@ type BinaryOpNode struct {
 }
 
 func (n *BinaryOpNode) String() string {
-	return n.Arg1.String() + " " + n.Name + " " + n.Arg2.String()
+	var prec = binaryPrecedence[n.Name]
+	return operandString(n.Arg1, prec, false) + " " + n.Name + " " + operandString(n.Arg2, prec, true)
+}
+
+// binaryPrecedence mirrors the parser's operator precedence table.
+var binaryPrecedence = map[string]int{
+	"*": 7, "/": 7, "%": 7,
+	"+": 6, "-": 6,
+	"<": 5, ">": 5, "<=": 5, ">=": 5,
+	"==": 4, "!=": 4,
+	"and": 3,
+	"or":  2,
+	"?:":  1,
+}
+
+// precedence returns the binding strength of the operator at the root of the
+// given expression, or a large number if it is not an operator.
+func precedence(n Node) int {
+	switch n := n.(type) {
+	case *NotNode, *NegateNode:
+		return 8
+	case *MulNode:
+		return binaryPrecedence[n.Name]
+	case *DivNode:
+		return binaryPrecedence[n.Name]
+	case *ModNode:
+		return binaryPrecedence[n.Name]
+	case *AddNode:
+		return binaryPrecedence[n.Name]
+	case *SubNode:
+		return binaryPrecedence[n.Name]
+	case *EqNode:
+		return binaryPrecedence[n.Name]
+	case *NotEqNode:
+		return binaryPrecedence[n.Name]
+	case *GtNode:
+		return binaryPrecedence[n.Name]
+	case *GteNode:
+		return binaryPrecedence[n.Name]
+	case *LtNode:
+		return binaryPrecedence[n.Name]
+	case *LteNode:
+		return binaryPrecedence[n.Name]
+	case *OrNode:
+		return binaryPrecedence[n.Name]
+	case *AndNode:
+		return binaryPrecedence[n.Name]
+	case *ElvisNode:
+		return binaryPrecedence[n.Name]
+	case *TernNode:
+		return 0
+	}
+	return 100
+}
+
+// operandString returns the source of an operand of an operator with the given
+// precedence, parenthesized if it would otherwise parse differently.
+func operandString(operand Node, parentPrec int, rightOperand bool) string {
+	var prec = precedence(operand)
+	if prec < parentPrec || (rightOperand && prec == parentPrec) {
+		return "(" + operand.String() + ")"
+	}
+	return operand.String()
 }
 
 func (n *BinaryOpNode) Children() []Node {
@@ -900,7 +981,7 @@ type TernNode struct {
 }
 
 func (n *TernNode) String() string {
-	return n.Arg1.String() + "?" + n.Arg2.String() + ":" + n.Arg3.String()
+	return operandString(n.Arg1, 1, true) + " ? " + operandString(n.Arg2, 1, true) + " : " + operandString(n.Arg3, 1, true)
 }
 
 func (n *TernNode) Children() []Node {
